@@ -312,17 +312,17 @@ TRUSTED_BASE = ["pyvc symbolic executor (A-ENGINE)", "z3 5.1", "spec functions v
                 "CPython built-ins per verif/pyvc/calls.py (A-BUILTIN)", "hashlib/hmac: uninterpreted in the deductive part, CPython's implementation in the bounded part",
                 "SHA-256 pin of the English word list", "intrinsic: buidl.pbkdf2.callable == builtin callable"]
 ASSUMPTIONS = ["A-ENGINE", "A-SPEC", "A-BUILTIN", "termination not verified",
-               "PBKDF2 for 2048 iterations follows from the proved 1-3 iteration instances by induction on the XOR fold (not mechanised)",
+               "PBKDF2 for 2048 iterations follows from the proved 1-2 (stand-alone: 3) iteration instances by induction on the XOR fold (not mechanised)",
                "mnemonic sentences and passphrases are ASCII/bytes: Unicode NFKD normalisation of BIP39 is outside the library's API (passwords are bytes)"]
 EXPLANATION = ("BIP39: the vendored PBKDF2 stream reader is proved equal to RFC 8018 F()/T_i concatenation for small iteration counts with the PRF uninterpreted; "
                "the word list is decided exhaustively; entropy<->words, acceptance and seed/master-key derivation are checked by bounded runs against an independent spec.")
 CATEGORY = "other"
 LEVEL_TEXT = ("Mixed. Deductive (symbolic, z3, HMAC uninterpreted): PBKDF2.read/__f of buidl/pbkdf2.py == RFC 8018 T_1||T_2||... for all passwords/salts with 1 iteration "
-              "(SHA-512, 64 and 130 bytes, two consecutive reads; SHA-1 50 bytes), 2 iterations (SHA-1; SHA-512 in thorough) and 3 iterations (SHA-1, thorough). "
+              "(SHA-512, 64 and 130 bytes, two consecutive reads; SHA-1 50 bytes) and 2 iterations (SHA-1, thorough tier; SHA-512 c=2 and SHA-1 c=3 were proved in stand-alone runs only, see notes/C14_C15.md). "
               "Exhaustive: the 2048-word list (distinct, sorted, unique 4-letter prefixes, no prefix equal to another word, canonical SHA-256, lookup table of the real WordList "
               "object has exactly the full words and 4-letter prefixes). Bounded against an independent BIP39/RFC 8018/BIP32 spec: all five entropy sizes with boundary and random "
               "entropies, every single-word substitution of sampled phrases accepted exactly when the checksum still matches, prefix forms, wrong lengths, seeds with/without "
               "(non-ASCII) passphrases, master xprv, Trezor vectors. Not 'proof': word/strings handling is outside the symbolic engine and the 2048-round instance is not unrolled; "
               "one finding keeps a clause failing (bytes_to_mnemonic does not check len(b)*8 == num_bits).")
 LEVEL_NOTE = ("trusted: pyvc translation (A-ENGINE), spec functions (A-SPEC), CPython builtin contracts (A-BUILTIN), HMAC uninterpreted or CPython's; "
-              "induction from c<=3 to c=2048 is a manual step; termination not verified")
+              "induction from c<=2 to c=2048 is a manual step; termination not verified")
